@@ -158,6 +158,14 @@ func (clnt *Clnt) recv() {
 		pos += n
 		for pos > 4 {
 			sz, _ := Gint32(buf)
+			if sz > atomic.LoadUint32(&clnt.Msize) {
+				/* the server can't send more than msize: don't wait for it */
+				clnt.Lock()
+				clnt.err = &Error{"response larger than msize", EINVAL}
+				_ = clnt.conn.Close()
+				clnt.Unlock()
+				goto closed
+			}
 			if pos < int(sz) {
 				if len(buf) < int(sz) {
 					b := make([]byte, atomic.LoadUint32(&clnt.Msize)*8)
